@@ -485,7 +485,13 @@ fn handle_parse_node<Data: GarnishData>(
         }
         Definition::NestedExpression => match parse_node.get_right() {
             None => {
-                let addr = data.add_expression(current_root_jump.clone())?;
+                // `{}` is the expression it is written in: inside a conditional arm or the right operand of
+                // `&&` / `||` the body being emitted (current_root_jump) is that arm, not the expression
+                let containing = match nodes.get(node_index) {
+                    Some(Some(node)) => node.containing_expression_jump.clone(),
+                    _ => current_root_jump.clone(),
+                };
+                let addr = data.add_expression(containing)?;
                 data.push_instruction(Instruction::Put, Some(addr))?;
                 instruction_metadata.push(InstructionMetadata::new(Some(node_index)));
             }
